@@ -113,3 +113,92 @@ Proof.
   apply app_lc_Proper; [|reflexivity].
   unfold lapp; cbn [fst snd]. apply lc_bind_scale.
 Qed.
+
+(** ** bind respects equality of linear combinations in its first argument *)
+Section BindProper.
+  Variable F : occ -> lincomb.
+  Variable m : occ.
+  Let phi (s : occ) : G := coef_at m (F s).
+  Definition sumS (S : list occ) (l : lincomb) : G :=
+    fold_right (fun s acc => gadd (gmul (coef_at s l) (phi s)) acc) g0 S.
+
+  Lemma sumS_nil S : geq (sumS S []) g0.
+  Proof. induction S; cbn [sumS fold_right coef_at]; [reflexivity|]. fold (sumS S []). rewrite IHS. ring. Qed.
+
+  Lemma sumS_cons S c s0 l :
+    geq (sumS S ((c, s0) :: l))
+        (gadd (fold_right (fun s acc => gadd (gmul (if occ_eqb s0 s then c else g0) (phi s)) acc) g0 S) (sumS S l)).
+  Proof.
+    induction S as [|s S IH]; cbn [sumS fold_right coef_at]; [ring|].
+    fold (sumS S ((c, s0) :: l)). fold (sumS S l). rewrite IH. ring.
+  Qed.
+
+  Lemma pick_one S c s0 : NoDup S -> In s0 S ->
+    geq (fold_right (fun s acc => gadd (gmul (if occ_eqb s0 s then c else g0) (phi s)) acc) g0 S) (gmul c (phi s0)).
+  Proof.
+    induction S as [|s S IH]; intros Hn Hi; [destruct Hi|].
+    inversion Hn; subst. cbn [fold_right].
+    destruct (occ_eqb_spec s0 s) as [E|E].
+    - subst s.
+      assert (Hz : geq (fold_right (fun s acc => gadd (gmul (if occ_eqb s0 s then c else g0) (phi s)) acc) g0 S) g0).
+      { clear IH Hn Hi. induction S as [|s S IH]; cbn [fold_right]; [reflexivity|].
+        destruct (occ_eqb_spec s0 s); [subst; exfalso; apply H1; left; auto|].
+        rewrite IH; [ring| |]; [intro; apply H1; right; auto|inversion H2; auto]. }
+      rewrite Hz. ring.
+    - destruct Hi as [Hi|Hi]; [congruence|]. rewrite IH by auto. ring.
+  Qed.
+
+  Lemma bind_sumS S l : NoDup S -> (forall cs, In cs l -> In (snd cs) S) ->
+    geq (coef_at m (lc_bind l F)) (sumS S l).
+  Proof.
+    intros Hn. induction l as [|[c s0] l IH]; intros Hin.
+    - rewrite sumS_nil. reflexivity.
+    - rewrite lc_bind_cons, coef_at_app, IH by (intros; apply Hin; right; auto).
+      rewrite sumS_cons, pick_one; auto; [|apply (Hin (c, s0)); left; auto].
+      unfold lapp. rewrite coef_at_scale. reflexivity.
+  Qed.
+
+  Lemma sumS_ext S l l' : lc_eq l l' -> geq (sumS S l) (sumS S l').
+  Proof.
+    intros H. induction S as [|s S IH]; cbn [sumS fold_right]; [reflexivity|].
+    fold (sumS S l). fold (sumS S l'). rewrite IH, (H s). reflexivity.
+  Qed.
+End BindProper.
+
+Lemma lc_bind_Proper_l F l l' : lc_eq l l' -> lc_eq (lc_bind l F) (lc_bind l' F).
+Proof.
+  intros H m.
+  set (S := nodup (list_eq_dec Z.eq_dec) (map snd l ++ map snd l')).
+  assert (Hn : NoDup S) by apply NoDup_nodup.
+  rewrite (bind_sumS F m S l Hn), (bind_sumS F m S l' Hn).
+  - apply sumS_ext. exact H.
+  - intros cs Hc. apply nodup_In. apply in_or_app. right. apply in_map. exact Hc.
+  - intros cs Hc. apply nodup_In. apply in_or_app. left. apply in_map. exact Hc.
+Qed.
+
+#[global] Instance lc_bind_Proper : Proper (lc_eq ==> (pointwise_relation _ lc_eq) ==> lc_eq) lc_bind.
+Proof.
+  intros l l' Hl F F' HF. rewrite (lc_bind_Proper_l F l l' Hl). apply lc_bind_ext. exact HF.
+Qed.
+
+Lemma lc_bind_unit l : lc_eq (lc_bind l (fun s => [(g1, s)])) l.
+Proof.
+  induction l as [|[c s] l IH]; [reflexivity|].
+  rewrite lc_bind_cons, IH. unfold lapp, lc_scale, pscale. cbn [map fst snd app].
+  apply lc_eq_cons; [split; cbn [fst snd]; [ring|reflexivity]|reflexivity].
+Qed.
+Lemma lc_bind_nil_r l : lc_eq (lc_bind l (fun _ => [])) [].
+Proof. induction l as [|[c s] l IH]; [reflexivity|]. rewrite lc_bind_cons, IH. reflexivity. Qed.
+Lemma lc_bind_app_r l F H : lc_eq (lc_bind l (fun s => F s ++ H s)) (lc_bind l F ++ lc_bind l H).
+Proof.
+  induction l as [|[c s] l IH]; [reflexivity|].
+  rewrite !lc_bind_cons, IH. unfold lapp. cbn [fst snd]. rewrite lc_scale_app.
+  intros m. rewrite !coef_at_app. ring.
+Qed.
+Lemma lc_bind_scale_r l F c : lc_eq (lc_bind l (fun s => lc_scale c (F s))) (lc_scale c (lc_bind l F)).
+Proof.
+  induction l as [|[c' s] l IH]; [reflexivity|].
+  rewrite !lc_bind_cons, IH, lc_scale_app. unfold lapp. cbn [fst snd].
+  rewrite !lc_scale_scale. apply app_lc_Proper; [|reflexivity].
+  apply lc_scale_Proper; [ring|reflexivity].
+Qed.
